@@ -453,7 +453,8 @@ func (Engine) Generate(prop string, verifSeed int64, tier string, idx int) *core
 	case k < 16:
 		sp.Kind = "tagvalue"
 		sp.F = ""
-		b = [][]byte{tvFile(), []byte("SPDXVersion:\n  \"SPDX-2.3\"\n"), []byte("SPDXVersion: SPDX-2.2\n"), []byte("DataLicense: CC0-1.0\n'SPDX-2.3'\n")}[r.Intn(4)]
+		b = [][]byte{tvFile(), []byte("SPDXVersion:\n  \"SPDX-2.3\"\n"), []byte("SPDXVersion: SPDX-2.2\n"), []byte("DataLicense: CC0-1.0\n'SPDX-2.3'\n"),
+			[]byte("# " + strings.Repeat("long line ", 9000) + "\nSPDXVersion: SPDX-2.3\n"), []byte(strings.Repeat("x", 70000))}[r.Intn(6)]
 	case k < 17:
 		sp.Kind = "empty"
 		sp.F = ""
@@ -786,6 +787,9 @@ func judge(res *core.Result, sp *Spec, data []byte, chunks []int, eofWith bool, 
 		f := o.f
 		if f.Version() != "" && strings.Count(f.Version(), ".") == 1 && f.Major()+"."+f.Minor() != f.Version() {
 			res.Violate("sniff:declared:"+fm, fmt.Sprintf("reported format %q: Major() %q and Minor() %q do not make up Version() %q", f, f.Major(), f.Minor(), f.Version()))
+		}
+		if u := f.URI(); u == "" || !strings.HasPrefix(string(f), u+"+") {
+			res.Violate("sniff:declared:"+fm, fmt.Sprintf("reported format %q: URI() is %q", f, u))
 		}
 		if f.Type() != dt || f.Version() != dv || f.Encoding() != formats.JSON {
 			res.Violate("sniff:declared:"+fm, fmt.Sprintf("SniffReader reported %q (type %q version %q encoding %q) but the input's top-level declaration says type %q version %q", f, f.Type(), f.Version(), f.Encoding(), dt, dv))
